@@ -84,11 +84,15 @@ def parse_url(url: str) -> ParsedURL:
     # Normalize path (default to '/')
     path = parsed.path if parsed.path else "/"
 
+    # urlparse().hostname drops the brackets of an IPv6 literal; the authority
+    # of the normalized URL needs them back
+    host = f"[{parsed.hostname}]" if ":" in parsed.hostname else parsed.hostname
+
     # Construct normalized URL
     normalized = urlunparse(
         (
             "gemini",  # Always use 'gemini' scheme
-            f"{parsed.hostname}:{port}" if port != DEFAULT_PORT else parsed.hostname,
+            f"{host}:{port}" if port != DEFAULT_PORT else host,
             path,
             parsed.params,
             parsed.query,
